@@ -161,6 +161,9 @@ Definition pl_fn (pl : payload) : N :=
   | PDestList => FN_DEST
   end.
 
+(* the notify form of detailed discovery data carries the partial filter (cmdControl.partial) *)
+Definition partial_payload (pl : payload) : bool := match pl with PDiscovery _ => true | _ => false end.
+
 Definition pl_val (pl : payload) : N :=
   match pl with
   | PData _ v => v
@@ -595,8 +598,9 @@ Definition fl_handle (s : st) (p : N) (en : rent) (rf : rfeat) (lf : lfeat) (d :
                    (s1, o1, None)
                end
       | CNotify =>
-          (* processNotify *)
-          if negb (fn_registered (rf_type rf) fn) then (s, [], Some E_GENERAL) else (s, [], None)
+          (* processNotify: FeatureRemote.UpdateData; with a partial filter FunctionData.UpdateData needs a
+             type that supports partial updates, which detailed discovery data is not *)
+          if negb (fn_registered (rf_type rf) fn) || partial_payload pl then (s, [], Some E_GENERAL) else (s, [], None)
       | CWrite => process_write s p lf d fn (pl_val pl)
       | CCall => (s, [], Some E_GENERAL)          (* "CmdClassifier not implemented" *)
       end
